@@ -34,7 +34,30 @@ def run_one(I, H, prefix):
     return PathResult(end, fails, summary, len(I.decisions)), list(I.pending)
 
 
+_TRAMP = None
+
+
+def trampoline():
+    """CPython 3.11 keeps interpreter frames on a chunked data stack and mmaps / munmaps a 16 KiB chunk every time the
+    recursion depth crosses a chunk boundary; the MIR interpreter recurses deeply and oscillates across boundaries, which
+    cost half of the run time in the kernel and destroyed multi-process scaling.  Running the worker below a frame with
+    70 000 (unused) locals makes CPython allocate one 1 MiB chunk whose free half then holds all nested frames."""
+    global _TRAMP
+    if _TRAMP is None:
+        src = 'def _tramp(fn, _never=False):\n    if _never:\n' + ''.join('        x%d = 0\n' % i for i in range(70000)) + '    return fn()\n'
+        ns = {}
+        exec(compile(src, '<mirsym-trampoline>', 'exec'), ns)
+        _TRAMP = ns['_tramp']
+    return _TRAMP
+
+
 def _worker(task):
+    if os.environ.get('MIRSYM_NO_TRAMPOLINE'):
+        return _worker_inner(task)
+    return trampoline()(lambda: _worker_inner(task))
+
+
+def _worker_inner(task):
     prefix, slice_s, max_paths = task
     I, H = _I, _H
     t0 = time.time()
@@ -94,6 +117,7 @@ def explore(I, H, jobs=16, max_paths=2000000, time_budget=3600, keep_summaries=4
     """explores all paths of harness H.  Returns an Exploration."""
     global _I, _H
     _I, _H = I, H
+    trampoline()
     ex = Exploration()
     if keep_all:
         ex.all_summaries = []
